@@ -48,10 +48,10 @@ theorem C02_not_eligible_no_effect (s : St) (msg : Msg) (key : TellKey) (r : Mod
 /-- an eligible recipient with room in its mailbox gets exactly one copy, appended at the end, carrying the
 sender, topic, payload pointer and system flag of the send -/
 theorem C02_eligible_gets_one_copy (s : St) (msg : Msg) (key : TellKey) (r : ModId) (md : Mod) (q : List Msg)
-    (hm : s.mods[r]? = some md) (he : md.state = .running ∨ md.state = .paused) (hp : md.pipe = some q) (hroom : q.length < pipeCap) :
+    (hm : s.mods[r]? = some md) (he : md.state = .running ∨ md.state = .paused) (hp : md.pipe = some q) (hroom : q.length + md.pipeSkip < pipeCap) :
     ∃ copy md', (tellIf s msg key r).mods[r]? = some md' ∧ md'.pipe = some (q ++ [copy]) ∧
       copy.sender = msg.sender ∧ copy.topic = msg.topic ∧ copy.payload = msg.payload ∧ copy.sys = msg.sys ∧ md'.state = md.state ∧
-      copy.pill = msg.pill := by
+      copy.pill = msg.pill ∧ md'.pipeSkip = md.pipeSkip := by
   have hr : (holderRef s msg.holder).mods = s.mods := by
     unfold holderRef; split
     · rfl
@@ -62,7 +62,7 @@ theorem C02_eligible_gets_one_copy (s : St) (msg : Msg) (key : TellKey) (r : Mod
     rcases he with h | h <;> simp [h]
   unfold tellIf
   simp only [hm, hst, if_true, hp, hroom]
-  refine ⟨{ msg with sub := key.subOf }, { md with pipe := some (q ++ [{ msg with sub := key.subOf }]) }, ?_, rfl, rfl, rfl, rfl, rfl, rfl, rfl⟩
+  refine ⟨{ msg with sub := key.subOf }, { md with pipe := some (q ++ [{ msg with sub := key.subOf }]) }, ?_, rfl, rfl, rfl, rfl, rfl, rfl, rfl, rfl⟩
   unfold St.updMod
   simp [hr, hm, hlt, hget]
 
